@@ -74,9 +74,38 @@ func genGroup(prop string, seed uint64) *Plan {
 	}
 	switch prop {
 	case "C07":
-		k["mode"] = g.pick(0, 1, 1, 2, 2, 3)
+		k["mode"] = g.pick(0, 1, 1, 2, 2, 2, 3)
+		if g.pct(45) {
+			// slow applications: a rebalance has to wait for the member
+			// for several heartbeat intervals
+			k["block_rebalance"] = 1
+			k["process_ms"] = g.pick(800, 1500, 4000)
+			k["heartbeat_ms"] = 300
+		} else if g.pct(30) {
+			k["revoke_sleep_ms"] = g.pick(500, 2000, 5000)
+			k["heartbeat_ms"] = 300
+		}
 	case "C27":
 		k["mode"] = 1
+		if g.pct(45) {
+			// stale-claimant family: a member's rejoin is stuck in the
+			// network past its session time-out; it comes back with the
+			// ownership claims of an old generation
+			k["stale_family"] = 1
+			nparts = 1
+			k["nparts"] = 1
+			k["min_session_ms"] = 1000
+			k["session_ms"] = g.pick(3000, 5000, 8000)
+			k["rebalance_ms"] = g.pick(6000, 12000)
+			k["heartbeat_ms"] = g.pick(300, 1000)
+			ntopics = g.rng(2, 3)
+			k["ntopics"] = ntopics
+			topics = topics[:0]
+			for i := int64(0); i < ntopics; i++ {
+				topics = append(topics, fmt.Sprintf("t%d", i))
+				k[fmt.Sprintf("nparts_t%d", i)] = g.pick(1, 1, 2, 3, 4)
+			}
+		}
 	case "C08":
 		k["mode"] = g.pick(0, 1, 2)
 		k["default_callbacks"] = 1
@@ -89,6 +118,7 @@ func genGroup(prop string, seed uint64) *Plan {
 	case "C09":
 		k["mode"] = g.pick(0, 1)
 		k["disable_autocommit"] = 1
+		faultsN = int(g.rng(1, 8))
 		nslots = 1
 		if g.pct(25) {
 			nslots = 2
@@ -103,10 +133,18 @@ func genGroup(prop string, seed uint64) *Plan {
 	// producer
 	w := Actor{Name: "prod.w0", Client: "w0"}
 	n := int(g.rng(30, 160))
+	slowApp := k["block_rebalance"] != 0 && k["process_ms"] >= 500
+	if slowApp {
+		n = int(g.rng(150, 300)) // a backlog, so that nearly every poll returns records
+	}
 	for i := 0; i < n; i++ {
 		w.Ops = append(w.Ops, Op{Kind: "produce", S: topics[g.R.Intn(len(topics))], B: g.rng(0, nparts-1), C: g.pick(10, 40, 120)})
 		if g.pct(30) {
-			w.Ops = append(w.Ops, Op{Kind: "sleep", A: g.pick(10, 100, 500, 2000)})
+			if slowApp {
+				w.Ops = append(w.Ops, Op{Kind: "sleep", A: g.pick(1, 10, 50)})
+			} else {
+				w.Ops = append(w.Ops, Op{Kind: "sleep", A: g.pick(10, 100, 500, 2000)})
+			}
 		}
 	}
 	g.P.Actors = append(g.P.Actors, w)
@@ -118,6 +156,9 @@ func genGroup(prop string, seed uint64) *Plan {
 			op := Op{Kind: "poll", D: g.pick(200, 1000, 2000)}
 			if g.pct(50) {
 				op.A = g.rng(1, 10)
+			}
+			if slowApp {
+				op.A = g.rng(1, 3)
 			}
 			a.Ops = append(a.Ops, op)
 			if g.pct(20) {
@@ -145,7 +186,11 @@ func genGroup(prop string, seed uint64) *Plan {
 			case x < 5:
 				sc.Ops = append(sc.Ops, Op{Kind: "sleep", A: g.pick(1, 50, 500)})
 			default:
-				sc.Ops = append(sc.Ops, Op{Kind: g.pickS("commit_async", "commit_async", "commit_sync", "commit_records", "commit_uncommitted")})
+				op := Op{Kind: g.pickS("commit_async", "commit_async", "commit_async", "commit_sync", "commit_records", "commit_uncommitted")}
+				if op.Kind == "commit_async" && g.pct(30) {
+					op.D = g.pick(1, 5, 20, 100, 400)
+				}
+				sc.Ops = append(sc.Ops, op)
 			}
 		}
 		g.P.Actors = append(g.P.Actors, sc)
@@ -171,6 +216,12 @@ func genGroup(prop string, seed uint64) *Plan {
 		}
 	}
 	g.P.Actors = append(g.P.Actors, churn)
+	if k["stale_family"] != 0 {
+		for i := 0; i < int(g.rng(1, 3)); i++ {
+			f := Fault{Kind: g.pickS("delay", "delay", "stall"), Client: fmt.Sprintf("m%d.0", g.rng(0, int64(nslots)-1)), Broker: -1, Key: 11, Nth: int(g.rng(2, 5)), DurMs: k["session_ms"] + g.rng(500, 6000)}
+			g.fault(f)
+		}
+	}
 	g.groupFaults(faultsN, horizon, prop == "C09")
 	nm := int(g.rng(0, 3))
 	g.moves(nm, ntopics, nparts, horizon)
